@@ -209,6 +209,8 @@ impl Run {
         let path = dir.join(format!("{}-{}-{:016x}.json", self.id, sanitize(clause), h));
         let _ = std::fs::write(&path, text);
         self.violations += 1;
+        self.samples.insert(0, json!({"violating_case": case, "clause": clause}));
+        self.samples.truncate(24);
         println!("VIOLATION property={} replay={}", self.id, path.display());
         println!("  clause : {}", clause);
         println!("  what   : {}", message);
